@@ -32,13 +32,16 @@ use world::*;
 type PoolSvc = ConnectionPoolService<SimTransport, SimProtocol, RecSvc, SimBody>;
 type BoxFut = Pin<Box<dyn Future<Output = Result<http::Response<SimBody>, ClientError>>>>;
 
-const ORIGINS: [&str; 6] = [
+const ORIGINS: [&str; 8] = [
     "http://a.test",
     "https://a.test",
     "http://a.test:8080",
     "http://A.TEST",
     "http://b.test",
     "http://a.test:80",
+    // with user information: same host, two more ports
+    "http://u:p@a.test:9090",
+    "http://u@a.test:7070",
 ];
 
 #[derive(Clone, Copy, Debug, Serialize, Deserialize, PartialEq, Eq)]
